@@ -46,8 +46,9 @@ class Combination(object):
         specifiers.set_signature_forger(self, self.get_signature,
                                         emulate=False)
 
-    def __call__(self, arg, *args, **kwargs):
-        for function in self.functions:
+    def __call__(_sigtools_self, arg, *args, **kwargs):
+        # not named ``self``: see _SimpleWrapped.__call__
+        for function in _sigtools_self.functions:
             arg = function(arg, *args, **kwargs)
         return arg
 
